@@ -180,7 +180,13 @@ def run_case(case):
                     hist.append("inode-exchange")
                     res["counters"]["uuid_transitions_with_inode_exchange"] = 1
                 opts = opts + ["--test-fake-uuid"]
-            if rnd > 0:
+            if rnd == 2 and transition:
+                # the twins share size and time-stamp: any later swap/rename between them would be a content change under an
+                # unchanged name, size and time-stamp, which no scanner can see - they leave before the random operations
+                for tw in (b"twin-a", b"twin-b"):
+                    if tw in fs.entries[td]:
+                        fs.remove(td, tw)
+            if rnd > 0 and not (rnd == 1 and transition):
                 ops = scen.mutate(fs, rng, rng.randint(1, 8), hostile=0.2)
                 # several operations on the same path
                 if rng.random() < 0.5:
